@@ -200,6 +200,10 @@ MUTANTS = [
     ('C19', 'stamp-after-fire', (R, NODE_PROTOCOL, "            event.node_protocol = self\n\n            self.fire(event, *event.channels)\n", "\n            self.fire(event, *event.channels)\n            event.node_protocol = self\n"), 'C19.k'),
     ('C02', 'fire-rearms-stopped', (R, MANAGER, "        event.value = Value(event, self)\n        self.root._fire(event, channels, **kwargs)\n", "        event.value = Value(event, self)\n        event.stopped = False\n        self.root._fire(event, channels, **kwargs)\n"), 'C02.f'),
     ('C02', 'stop-toggles', (R, EVENTS, "        self.stopped = True\n", "        self.stopped = not self.stopped\n"), 'C02.f'),
+    ('C04', 'revert-stale-result', ('revert', 'e778110'), 'C04.h'),
+    ('C08', 'len-ignores-batch', (R, MANAGER, "        return len(self._queue) + len(self._priority_queue)", "        return len(self._queue)"), 'C08.h'),
+    ('C06', 'tasks-test-only-with-result', (R, MANAGER, "            if isinstance(event, generate_events) and self._tasks:\n                event.reduce_time_left(TIMEOUT)\n\n            if event.stopped:", "            if value is not None and isinstance(event, generate_events) and self._tasks:\n                event.reduce_time_left(TIMEOUT)\n\n            if event.stopped:"), 'C06.h'),
+    ('C11', 'eof-closes-at-once', (R, SOCKETS, "            else:\n                self.close(sock)\n        except OSError as e:", "            else:\n                self._close(sock)\n        except OSError as e:"), 'C11.e'),
 ]
 
 # behaviour-preserving edits: the check of the property must stay silent
